@@ -129,8 +129,10 @@ def run(chk) -> None:
             for cmd in cmds:
                 for config, explicit, tg in (("base", None, targets), ("overrides", None, targets),
                                              ("overrides", "empty.yaml", small), ("base", "empty.json", small),
-                                             ("overrides", "alt.yaml", small)):
-                    if quick and explicit and (len(jobs) + off) % 3:
+                                             ("overrides", "alt.yaml", small), ("base", "ignores.yaml", small)):
+                    if quick and explicit and (len(jobs) + off) % 3 and explicit != "ignores.yaml":
+                        continue
+                    if quick and explicit == "ignores.yaml" and off != offsets[0]:
                         continue
                     if cmd == "dry" and explicit and explicit.startswith("empty"):
                         # `dry --config F` overlays F's dry section on the project config instead of
